@@ -142,6 +142,20 @@ pub fn check_one_step(b: &Bounds, s: &L, loc: &mut Local) {
             }
         }
     }
+    // lax::Hypergraph::delete_nodes is delete_nodes_witness without the witness
+    {
+        use crate::laxconv::*;
+        let n = sd.open.nodes.len();
+        for ids in ohmc_core::uni::lists(n, 2) {
+            let (mut a, mut b) = (build_lax_hyper(&sd), build_lax_hyper(&sd));
+            let ra = catch(|| a.delete_nodes(&nid(&ids)));
+            let rb = catch(|| b.delete_nodes_witness(&nid(&ids)));
+            loc.trans(1);
+            if ra.is_ok() != rb.is_ok() || a != b {
+                loc.violation("delete_nodes-differs-from-delete_nodes_witness", json!({"state": sd, "ids": ids}));
+            }
+        }
+    }
     if sd.open.edges.len() >= 2 || sd.open.edges.iter().any(|e| e.src.len() >= 3) {
         loc.nontrivial();
     }
